@@ -925,6 +925,14 @@ def attachments_site(repo, tier):
     for c in cs:
         reg.add(c)
     isa = [c for c in cs if c.target == target]
+    # the other entry point in the same shape (C16 sees the router as a deterministic partial function of the path: GE_RAISES /
+    # GE_MOD / GE_FN): is_supported_file(p) == not GE_RAISES(p), which is this pack's contract of is_supported_file together with
+    # the lemma `is_supported-iff-get_extractor-returns` -- a site may ask first instead of catching the error
+    sup_target = f"{ROUTER}::is_supported_file"
+    if not any(c.target == sup_target for c in cs):
+        reg.add(FnContract(target=sup_target, params=[("path", p_str())], assumed=True,
+                           returns=lambda c: VBool(z3.Not(C16.GE_RAISES(c.args["path"].t))),
+                           note="verified by this pack (contract of is_supported_file + lemma is_supported-iff-get_extractor-returns)"))
     unknown = lambda why: {"id": f"{short}/out-of-subset", "kind": "out-of-subset", "status": "unknown", "vcs": 0, "seconds": 0.0,
                            "backends": {}, "witness": None, "reason": why[:300], "function": target, "loc": ""}
     if not isa:
